@@ -56,7 +56,7 @@ NormMpUpdate(m) ==
    LET n == NormUpdate(m) IN [n EXCEPT !.attrs = [i \in 1..Len(n.attrs) |-> <<n.attrs[i][1], n.attrs[i][2], NormMpValue(n.attrs[i][1], n.attrs[i][3])>>]]
 \* flow specification numeric operator octet: e (end of list) a (and) len(2 bits) 0 lt gt eq
 OpBits(op) == CASE op = "=" -> 1 [] op = ">" -> 2 [] op = ">=" -> 3 [] op = "<" -> 4 [] op = "<=" -> 5
-LenCode(n) == CASE n = 1 -> 0 [] n = 2 -> 16 [] n = 4 -> 32
+LenCode(n) == CASE n = 1 -> 0 [] n = 2 -> 16 [] n = 4 -> 32 [] n = 8 -> 48
 EncOps(ops) == Flatten([i \in 1..Len(ops) |-> <<(IF i = Len(ops) THEN 128 ELSE 0) + LenCode(ops[i].len) + OpBits(ops[i].op)>> \o ops[i].v])
 EncComp(c) == IF c[1] \in {1, 2} THEN <<c[1]>> \o EncPrefix(c[2]) ELSE <<c[1]>> \o EncOps(c[2])
 EncRule(rule) ==
@@ -281,6 +281,16 @@ Fs6Rules(lazy) ==
 Mp4Vecs(lazy) ==
    {[kind |-> "mpdec", asn4 |-> TRUE, var |-> v, u |-> [reach |-> r, ps |-> ps]] : r \in BOOLEAN, v \in Variants,
         ps \in {<<P6[i]>> : i \in 1..6} \cup {<<P6[4], P6[2]>>, <<P6[2], P6[4], P6[6]>>, <<P6[5], P6[4], P6[1], P6[4]>>}}
+\* flowspec operators whose value is written in 8 octets (length code 3: legal, RFC 8955 4.2.1.1; the agent never emits it)
+FsWide == {<<<<5, <<FsOp("=", 8, <<0, 0, 0, 0, 0, 0, 0, 80>>)>>>>>>, <<<<3, <<FsOp("=", 8, <<0, 0, 0, 0, 0, 0, 0, 6>>)>>>>, <<5, <<FsOp(">=", 8, <<0, 0, 0, 0, 0, 0, 4, 0>>), FsOp("<", 2, <<31, 144>>)>>>>>>,
+           <<<<1, Pfx(24, <<10, 1, 2, 0>>)>>, <<6, <<FsOp("=", 8, <<0, 0, 0, 0, 0, 0, 1, 187>>), FsOp("=", 1, <<80>>)>>>>>>}
+FsDecVecs(lazy) == {[kind |-> "fsdec", asn4 |-> TRUE, var |-> Canon, u |-> [reach |-> r, rules |-> <<x>>]] : r \in BOOLEAN, x \in FsWide}
+                   \cup {[kind |-> "fsdec", asn4 |-> TRUE, var |-> Canon, u |-> [reach |-> TRUE, rules |-> <<x, <<<<3, <<FsOp("=", 1, <<6>>)>>>>>>>>]] : x \in FsWide}
+FsDecBytes(v) ==
+   LET nl == Flatten([i \in 1..Len(v.u.rules) |-> EncRule(v.u.rules[i])])
+       a == IF v.u.reach THEN EncAttrs(MpBase, TRUE, FALSE) \o AttrTLV(14, U16(1) \o <<133, 0, 0>> \o nl, TRUE)
+            ELSE AttrTLV(15, U16(1) \o <<133>> \o nl, TRUE)
+   IN Message(2, U16(0) \o U16(Len(a)) \o a)
 Mp4Bytes(v) ==
    LET nl == EncPfx(v.u.ps, v.var.dirty, v.var.pathids)
        a == IF v.u.reach THEN EncAttrs(MpBase, TRUE, FALSE) \o AttrTLV(14, U16(1) \o <<1, 4>> \o Nh4 \o <<0>> \o nl, v.var.ext)
@@ -295,6 +305,9 @@ EncVecs(lazy) ==
    \* writes it when there is none): one global next hop of 16 octets, or no message
    \cup {[kind |-> "enc", sub |-> "v6ll", u |-> [ll |-> ll, ps |-> ps]] : ll \in {"empty", "null", "absent"},
             ps \in {<<P6v6[1]>>, <<P6v6[6]>>, <<P6v6[1], P6v6[3], P6v6[6]>>, <<Pfx6(128, A6a)>>, <<Pfx6(64, A6a), Pfx6(0, A6a)>>}}
+   \* EVPN MAC/IP routes whose MAC address is written without leading zeros / in upper case (the octets are what the text means)
+   \cup {[kind |-> "enc", sub |-> "evpnmac", u |-> [mac |-> m, style |-> st, reach |-> r]] : r \in BOOLEAN, st \in {"short", "upper", "plain"},
+            m \in {<<0, 1, 2, 10, 11, 12>>, <<10, 11, 204, 221, 238, 255>>, <<0, 0, 94, 0, 1, 35>>, <<8, 0, 39, 222, 173, 1>>}}
    \* EVPN IP prefix routes (type 5; the agent constructs them, C07 does not list them): IPv4 / IPv6 prefix, gateway of the
    \* same family or left out of the request, announced and withdrawn
    \cup {e \in {[kind |-> "enc", sub |-> "evpn5", u |-> [reach |-> r, pa |-> p[1], pl |-> p[2], gw |-> g, label |-> l]] :
@@ -324,6 +337,11 @@ EncBytes(v) ==
         [] v.sub = "pmsi" -> withAttr(22, EncPmsi(v.u), FALSE)
         [] v.sub = "v6ll" ->
               LET a == EncAttrs(MpBase, TRUE, FALSE) \o AttrTLV(14, EncMpReach("ipv6", Nh6, v.u.ps), TRUE)
+              IN Message(2, U16(0) \o U16(Len(a)) \o a)
+        [] v.sub = "evpnmac" ->
+              LET rt == <<2, [rd |-> Rd0, esi |-> Zeros(10), tag |-> <<0, 108>>, mac |-> v.u.mac, ip |-> <<>>, labels |-> <<16>>]>>
+                  a == IF v.u.reach THEN EncAttrs(MpBase, TRUE, FALSE) \o AttrTLV(14, EncMpReach("evpn", Nh4, <<rt>>), TRUE)
+                       ELSE AttrTLV(15, EncMpUnreach("evpn", <<rt>>), TRUE)
               IN Message(2, U16(0) \o U16(Len(a)) \o a)
         [] v.sub = "evpn5" ->
               LET gw == IF v.u.gw = <<>> THEN Zeros(Len(v.u.pa)) ELSE v.u.gw
